@@ -322,3 +322,22 @@ func isRepoPkg(pkg *types.Package) bool {
 	}
 	return pkg.Path() == repoMod || strings.HasPrefix(pkg.Path(), repoMod+"/")
 }
+
+// isGlue: a repository function the path engine looks into instead of treating its call as an
+// opaque event — every unexported function, and every exported function or method that is not part
+// of the reference API (knownAPI). Rules speak about the API primitives by name; everything
+// else is glue whose effects must be visible in its callers' paths, so that wrapping primitives in a
+// new (even exported, even cross-package) function does not hide what a path does.
+func (p *Program) isGlue(f *types.Func) bool {
+	if f == nil || f.Pkg() == nil || !isRepoPkg(f.Pkg()) {
+		return false
+	}
+	def := p.Funcs[f]
+	if def == nil || def.Body == nil {
+		return false
+	}
+	if !f.Exported() {
+		return true
+	}
+	return !knownAPI[def.Name]
+}
